@@ -87,6 +87,12 @@ def alt_bindings(alt, enum_name, variant, field_names, kind):
 
 
 def find_matches(f, enum_name):
+    # `Self::Variant` patterns inside `impl Enum`
+    if (f.get('self_ty') or '').split('<')[0] == enum_name:
+        for m in f['matches']:
+            for a in m['arms']:
+                a['variants'] = [v.replace('Self::', enum_name + '::') for v in a['variants']]
+                a['pat'] = re.sub(r'\bSelf\s*::', enum_name + ' :: ', a['pat'])
     return [m for m in f['matches'] if any(re.search(rf'\b{enum_name}::', v) or v.startswith(f'{enum_name}::') for a in m['arms'] for v in a['variants'])]
 
 
@@ -122,7 +128,7 @@ def check_recursion(rep, rule, ctx, f, enum_name, callees, label, needle='RustTy
                     problems.append(f"payload `{pos}` is not bound (`_`/`..`)")
                     continue
                 body = a['body']
-                called = any(re.search(rf'\b{re.escape(c)}\s*\((?:[^;{{}}]|\{{[^{{}}]*\}})*\b{name}\b', body) for c in callees)
+                called = any(re.search(rf'\b{re.escape(c)}\s*\((?:[^;{{}}]|\{{[^{{}}]*\}})*\b{name}\b', body) or re.search(rf'\b{name}\s*(?:\.\s*(?:as_ref|deref|as_mut)\s*\(\s*\)\s*)?\.\s*{re.escape(c)}\s*\(', body) for c in callees)
                 if not called:
                     if uses_ok and re.search(rf'\b{name}\b', body):
                         continue
